@@ -3,25 +3,20 @@ import MythVerif.Proofs.WsQueueTsoTac
 namespace MythVerif.WsqTso
 open MythVerif.Wsq
 
-set_option maxHeartbeats 4000000 in
 theorem t_vk4 (s s' : St) (p : Pid) (b r) : Inv s → s.tpc p = .vk4 b r → stepT s p = some s' → Inv s' := by
   intro h heq hs
   have hb := h.tbufE p (by simp [heq, mayBuf])
-  cases h
   simp only [stepT, heq, hb] at hs
   simp at hs; subst hs
-  simp only [ownerLocked, carry, resetting, ownerFlight] at *
-  tso_finish
+  tso_fastT h p [vk4]
 
-set_option maxHeartbeats 4000000 in
 theorem t_vk5 (s s' : St) (p : Pid) (b) : Inv s → s.tpc p = .vk5 b → stepT s p = some s' → Inv s' := by
   intro h heq hs
   obtain ⟨hlb, htr, hsh⟩ := h.vk5 p b heq
   have hvu := h.vu
-  cases h
   simp only [stepT, heq] at hs
   simp at hs; subst hs
-  simp only [ownerLocked, carry, resetting, ownerFlight] at *
+  tso_coreT h [vk5]
   constructor
   all_goals (try simp only [ownerLocked, carry, resetting, ownerFlight, upd_apply, applySto])
   case vu =>
@@ -33,9 +28,8 @@ theorem t_vk5 (s s' : St) (p : Pid) (b) : Inv s → s.tpc p = .vk5 b → stepT s
       · exact Or.inl ⟨r, by simp [h1, hlb], htr⟩
     · simp only [hqp, if_false] at hq ⊢
       exact hvu q hq
-  tso_rest
+  tso_goalsT h p
 
-set_option maxHeartbeats 4000000 in
 theorem t_vu (s s' : St) (p : Pid) : Inv s → s.tpc p = .vu → stepT s p = some s' → Inv s' := by
   intro h heq hs
   have hcfg := h.cfg
@@ -50,20 +44,15 @@ theorem t_vu (s s' : St) (p : Pid) : Inv s → s.tpc p = .vu → stepT s p = som
       · simp at h1
       · simp at h1
       · exact h1
-    cases h
     simp at hs; subst hs
-    simp only [ownerLocked, carry, resetting, ownerFlight] at *
-    tso_finish
+    tso_fastT h p [vu]
   · simp at hs
 
-set_option maxHeartbeats 4000000 in
 theorem t_vr (s s' : St) (p : Pid) : Inv s → s.tpc p = .vr → stepT s p = some s' → Inv s' := by
   intro h heq hs
   have hb := h.tbufE p (by simp [heq, mayBuf])
-  cases h
   simp only [stepT, heq, hb] at hs
   simp at hs; subst hs
-  simp only [ownerLocked, carry, resetting, ownerFlight] at *
-  tso_finish
+  tso_fastT h p []
 
 end MythVerif.WsqTso
